@@ -27,6 +27,7 @@ func init() {
 			{ID: "C18-R7", Title: "Code.Root returns a parentless code object", Floor: 1, Run: rootHasNoParent},
 			{ID: "C18-R8", Title: "a rejected declaration leaves no symbol behind: initializer compiled before the name is inserted (shared with C02-R5)", Floor: 2, Run: c02r5},
 			{ID: "C18-R9", Title: "index maps follow their slice through the rollback", Floor: 1, Run: indexMapsFollowTheirSlice},
+			{ID: "C18-R10", Title: "the instruction pointer can be parked at the end of the code", Floor: 1, Run: setIPAcceptsTheEnd},
 			{ID: "C18-R5", Title: "VM-level caches are filled only after the fallible work succeeded (shared with C07-R5)", Floor: 1, Run: c07r5},
 		},
 	})
